@@ -17,60 +17,82 @@ open BM
 theorem bitsToInt_intToBits (len : Nat) (i : Int) (hl : 0 < len)
     (h : -((2 : Int) ^ (len - 1)) ≤ i ∧ i < (2 : Int) ^ (len - 1)) :
     bitsToInt (intToBits len i) = i := by
-  sorry
+  obtain ⟨k, rfl⟩ : ∃ k, len = k + 1 := ⟨len - 1, by omega⟩
+  exact bitsToInt_intToBits' k i (by simpa using h)
 
 /-- Conversely every non-empty pattern is the encoding of the signed value it reads as. -/
 theorem intToBits_bitsToInt (b : Bits) (hb : b ≠ []) : intToBits b.length (bitsToInt b) = b := by
-  sorry
+  exact intToBits_bitsToInt' b hb
 
 /-- A pattern of `n > 0` bits reads as a value in exactly the documented range `[-2^(n-1), 2^(n-1))`. -/
 theorem bitsToInt_range (b : Bits) (hb : b ≠ []) :
     -((2 : Int) ^ (b.length - 1)) ≤ bitsToInt b ∧ bitsToInt b < (2 : Int) ^ (b.length - 1) := by
-  sorry
+  exact bitsToInt_range' b hb
 
 /-- Canonical form, non-negative half: the unsigned encoding of the same number (so `int` and `uint` agree there). -/
 theorem intToBits_nonneg (len : Nat) (i : Int) (h : 0 ≤ i) : intToBits len i = natToBits len i.toNat := by
-  sorry
+  exact intToBits_nonneg' len i h
 
 /-- Canonical form, negative half: the unsigned encoding of `2^len + i`. -/
 theorem intToBits_neg (len : Nat) (i : Int) (h : i < 0) (hr : -((2 : Int) ^ len) ≤ i) :
     intToBits len i = natToBits len ((2 : Int) ^ len + i).toNat := by
-  sorry
+  exact intToBits_neg' len i h hr
 
 /-- The first bit is the sign. -/
 theorem intToBits_sign (len : Nat) (i : Int) (hl : 0 < len)
     (h : -((2 : Int) ^ (len - 1)) ≤ i ∧ i < (2 : Int) ^ (len - 1)) :
     (intToBits len i).head? = some (decide (i < 0)) := by
-  sorry
+  obtain ⟨k, rfl⟩ : ∃ k, len = k + 1 := ⟨len - 1, by omega⟩
+  have hrt := bitsToInt_intToBits' k i (by simpa using h)
+  have hlen : (intToBits (k + 1) i).length = k + 1 := by simp [intToBits]
+  cases hb : intToBits (k + 1) i with
+  | nil => rw [hb] at hlen; simp at hlen
+  | cons s t =>
+    rw [hb, bitsToInt_cons] at hrt
+    have hlt := bitsToNat_lt (s :: t)
+    have htl : t.length = k := by rw [hb] at hlen; simpa using hlen
+    rw [htl] at hrt
+    have hc : ((2 : Int) ^ (k + 1)) = ((2 ^ (k + 1) : Nat) : Int) := by simp
+    simp only [List.length_cons, htl] at hlt
+    simp only [List.head?_cons, Option.some.injEq]
+    cases s
+    · simp only [Bool.false_eq_true, if_false] at hrt
+      simp; omega
+    · simp only [if_true] at hrt
+      rw [hc] at hrt
+      simp; omega
 
 theorem intToBits_length (len : Nat) (i : Int) : (intToBits len i).length = len := by
-  sorry
+  simp [intToBits]
 
 /-! ### bytes and byte order (property: "byte-reversed for little-endian") -/
 
 theorem bytesRev_length (b : Bits) (h : 8 ∣ b.length) : (bytesRev b).length = b.length := by
-  sorry
+  exact bytesRev_length' b h
 
 /-- Reversing the bytes twice gives the original whole-byte pattern back. -/
 theorem bytesRev_involutive (b : Bits) (h : 8 ∣ b.length) : bytesRev (bytesRev b) = b := by
-  sorry
+  exact bytesRev_involutive' b h
 
 /-- The code's little-endian getter is the big-endian getter applied to the byte-reversed pattern. -/
 theorem uintle_eq_uintbe_bytesRev (b : Bits) (h : 8 ∣ b.length) :
     getRaw .uintle b = getRaw .uintbe (bytesRev b) ∧ getRaw .intle b = getRaw .intbe (bytesRev b) := by
-  sorry
+  have hl := bytesRev_length' b h
+  have hm : b.length % 8 = 0 := Nat.mod_eq_zero_of_dvd h
+  have hi := bytesRev_involutive' b h
+  constructor <;> simp [getRaw, hl, hm]
 
 /-- What byte reversal means numerically: the byte-reversed pattern read MSB-first is `Σ byteᵢ · 256^i`
     (`int.from_bytes(x, 'little')`). -/
 theorem bytesRev_value (b : Bits) (h : 8 ∣ b.length) : bitsToNat (bytesRev b) = leValue (toBytes b) := by
-  sorry
+  exact bytesRev_value' b h
 
 /-- `tobytes` ∘ `frombytes` on a `bytes` object, and conversely on a whole-byte pattern. -/
 theorem toBytes_fromBytes (d : List Nat) (h : ∀ x ∈ d, x < 256) : toBytes (fromBytes d) = d := by
-  sorry
+  exact toBytes_fromBytes' d h
 
 theorem fromBytes_toBytes (b : Bits) (h : 8 ∣ b.length) : fromBytes (toBytes b) = b := by
-  sorry
+  exact fromBytes_toBytes' b h
 
 /-! ### hex / oct / bin (property: "one digit per 4/3/1 bits") -/
 
@@ -80,20 +102,40 @@ theorem digits_chunk (w : Nat) (hw : 0 < w) (g b : Bits) (hg : g.length = w) (hb
       (match bitsToDigits w b with
        | .ok s => .ok (digitChar (bitsToNat g) :: s)
        | .error e => .error e) := by
-  sorry
+  obtain ⟨s, hs⟩ := bitsToDigits_ok w hw b hb
+  rw [hs, bitsToDigits_append w hw g b hg s hs]
 
 /-- Parsing what was printed gives the pattern back (hex). -/
 theorem parseHex_hexDigits (b : Bits) (h : 4 ∣ b.length) :
     ∃ s, bitsToDigits 4 b = .ok s ∧ digitsToBits 4 hexVal? s = .ok b ∧ hex2bitstore s = .ok b := by
-  sorry
+  obtain ⟨s, h1, h2, h3⟩ := parse_print 4 (by omega) hexVal? hexVal_digitChar b h
+  refine ⟨s, h1, h2, ?_⟩
+  unfold hex2bitstore
+  have hp : ∀ c ∈ s, ∃ n, n < 16 ∧ c = digitChar n := h3
+  rw [tidy_fix s (fun c hc => by obtain ⟨n, hn, rfl⟩ := hp c hc; have := digitChar_plain n hn; exact ⟨this.1, this.2.1, this.2.2.1⟩),
+    removeAll2_fix _ _ s (fun c hc => by obtain ⟨n, hn, rfl⟩ := hp c hc; exact (digitChar_plain n hn).2.2.2.1)]
+  exact h2
 
 theorem parseOct_octDigits (b : Bits) (h : 3 ∣ b.length) :
     ∃ s, bitsToDigits 3 b = .ok s ∧ digitsToBits 3 octVal? s = .ok b ∧ oct2bitstore s = .ok b := by
-  sorry
+  obtain ⟨s, h1, h2, h3⟩ := parse_print 3 (by omega) octVal? octVal_digitChar b h
+  refine ⟨s, h1, h2, ?_⟩
+  unfold oct2bitstore
+  have hp : ∀ c ∈ s, ∃ n, n < 16 ∧ c = digitChar n := fun c hc => by
+    obtain ⟨n, hn, rfl⟩ := h3 c hc; exact ⟨n, by omega, rfl⟩
+  rw [tidy_fix s (fun c hc => by obtain ⟨n, hn, rfl⟩ := hp c hc; have := digitChar_plain n hn; exact ⟨this.1, this.2.1, this.2.2.1⟩),
+    removeAll2_fix _ _ s (fun c hc => by obtain ⟨n, hn, rfl⟩ := hp c hc; exact (digitChar_plain n hn).2.2.2.2.1)]
+  exact h2
 
 theorem parseBin_binDigits (b : Bits) :
     ∃ s, bitsToDigits 1 b = .ok s ∧ digitsToBits 1 binVal? s = .ok b ∧ bin2bitstore s = .ok b := by
-  sorry
+  obtain ⟨s, h1, h2, h3⟩ := parse_print 1 (by omega) binVal? binVal_digitChar b (Nat.one_dvd _)
+  refine ⟨s, h1, h2, ?_⟩
+  unfold bin2bitstore
+  have hp : ∀ c ∈ s, ∃ n, n < 2 ∧ c = digitChar n := h3
+  rw [tidy_fix s (fun c hc => by obtain ⟨n, hn, rfl⟩ := hp c hc; have := digitChar_plain n (by omega); exact ⟨this.1, this.2.1, this.2.2.1⟩),
+    removeAll2_fix _ _ s (fun c hc => by obtain ⟨n, hn, rfl⟩ := hp c hc; exact (digitChar_plain n (by omega)).2.2.2.2.2 hn)]
+  exact h2
 
 /-- Printing what was parsed gives the canonical (tidied, prefix-free, lower-case) text back. -/
 theorem digits_of_parse (k : StrKind) (s : List Char) (h : (k.canon s).all (fun c => (k.val? c).isSome) = true) :
